@@ -170,6 +170,38 @@ def main(tier, replay, t0):
             total_texts += 1
             texts.setdefault((g.get("canon_sha") or g["text_sha"]) + "|" + c.id,
                              (os.path.join(x["dir"], "m.rs"), c, x))
+    # 2b. formatter on, formatter faulty: whatever text comes back as Ok must still be the
+    # complete module (it is compiled like every other text)
+    real = shutil.which("rustfmt") or ""
+    fcases = [c for c in extra if getattr(c, "fixture", False)][:6]
+    fault_texts = 0
+    for stub in ("partial_then_exit1", "garbage_exit3", "read_some_then_exit1", "echo_then_exit1",
+                 "midchar_then_exit1", "partial_then_kill"):
+        jobs = []
+        fx = {}
+        for c in fcases:
+            x = {"opt": {"fmt": True, "en": True}, "id": "fault_" + stub,
+                 "dir": os.path.join(d, "cases", c.id, "fault_" + stub)}
+            fx[c.id] = x
+            jobs.append({"id": c.id, "source": c.wgsl, "opt": x["opt"], "canon": True,
+                         "out": os.path.join(x["dir"], "m.rs")})
+        res2, crashed = core.run_drive_sharded(
+            binp, jobs, "c01-fault-" + stub, shards=2,
+            extra_env={"PATH": os.path.join(core.VERIF, "stubs", stub),
+                       "VERIF_REAL_RUSTFMT": real})
+        if crashed:
+            raise core.Inconclusive("drive crashed under formatter fault %s: %r" % (
+                stub, crashed[:1]))
+        for c in fcases:
+            g = res2.get(c.id, {})
+            if g.get("result") != "ok":
+                continue
+            fault_texts += 1
+            total_texts += 1
+            x = fx[c.id]
+            x = dict(x, opt=dict(x["opt"], formatter_fault=stub))
+            texts.setdefault((g.get("canon_sha") or g["text_sha"]) + "|" + c.id,
+                             (os.path.join(fx[c.id]["dir"], "m.rs"), c, x))
     # 3. compile against the real crates
     items = sorted(texts.items())
     nshards = max(core.NCPU, (len(items) + 149) // 150)
